@@ -156,6 +156,11 @@ func (e *Expression) Add(res fhir.Resource, name string, value fhir.Base, option
 	if !field.IsList() && ref.Has(field) {
 		return fmt.Errorf("%w: unable to add value to populated scalar field '%v' in %v resource", ErrNotPatchable, name, resource.TypeOf(res))
 	}
+	// The scalar inside a primitive (a zero value such as false or "" does not count as populated above) is not an
+	// element that can be added.
+	if field.Message() == nil {
+		return fmt.Errorf("%w: '%v' is the value of a primitive element", ErrNotPatchable, name)
+	}
 
 	var update func(m protoreflect.ProtoMessage)
 	var valueMessage protoreflect.Message
